@@ -10,6 +10,18 @@ From PyLib Require Import PyVal PyBuiltins Ideal Whnf PyEval.
 Import ListNotations.
 Open Scope R_scope.
 
+Lemma ifv_true {F} (fo : FloatOps F) a b : ifv fo (VBool true) a b = a tt.
+Proof. reflexivity. Qed.
+Lemma ifv_false {F} (fo : FloatOps F) a b : ifv fo (VBool false) a b = b tt.
+Proof. reflexivity. Qed.
+Lemma ifv_bool {F} (fo : FloatOps F) c a b : ifv fo (VBool c) a b = if c then a tt else b tt.
+Proof. destruct c; reflexivity. Qed.
+Lemma ifv_err {F} (fo : FloatOps F) e a b : ifv fo (VErr e) a b = VErr e.
+Proof. reflexivity. Qed.
+
+(* [ifv] (truthiness test) must be in the client's block list: its condition is evaluated to a value
+   first; unfolding it on an unevaluated condition exposes a match whose every branch holds a copy of
+   the continuation, and each later step re-checks that whole term. *)
 Ltac has_noncanon_arg t :=
   lazymatch t with
   | ?g ?a =>
@@ -35,6 +47,18 @@ Ltac pyrun2_using tac :=
     tryif is_canon l then expose_R else
     first [
       lazymatch l with
+      | ifv ?fo ?c ?a ?b =>
+          tryif is_canon c then
+            lazymatch c with
+            | VBool true => refine (eq_trans (ifv_true fo a b) _)
+            | VBool false => refine (eq_trans (ifv_false fo a b) _)
+            | VBool ?c0 => refine (eq_trans (ifv_bool fo c0 a b) _)
+            | VErr ?e => refine (eq_trans (ifv_err fo e a b) _)
+            end
+          else
+            let H := fresh "Hev" in
+            eassert (H : c = _) by (pyrun2_using tac; py_canon_refl);
+            refine (eq_trans (f_equal (fun z => ifv fo z a b) H) _); clear H
       | bind ?e ?k =>
           tryif is_canon e then
             lazymatch e with
@@ -63,6 +87,10 @@ Ltac pyrun2_using tac :=
               | bind ?e ?k =>
                   let H := fresh "Hev" in
                   eassert (H : bind e k = _) by (pyrun2_using tac; py_canon_refl);
+                  rewrite H; clear H
+              | ifv _ _ _ _ =>
+                  let H := fresh "Hev" in
+                  eassert (H : s = _) by (pyrun2_using tac; py_canon_refl);
                   rewrite H; clear H
               | Rltb _ _ => py_decide_at s tac
               | Rleb _ _ => py_decide_at s tac
@@ -96,9 +124,15 @@ with cbv_fun g tac k :=
               (let H := fresh "Hev" in
                eassert (H : a = _) by (pyrun2_using tac; py_canon_refl);
                k constr:(f_equal2 (fun f x => f x) p1 H); clear H))
-      | nat => cbv_fun g1 tac ltac:(fun p1 => k constr:(f_equal (fun f => f a) p1))
-      | libm_fn => cbv_fun g1 tac ltac:(fun p1 => k constr:(f_equal (fun f => f a) p1))
-      | _ => k constr:(eq_refl g)
+      | FloatOps _ => k constr:(eq_refl g)
+      | Type => k constr:(eq_refl g)
+      | Set => k constr:(eq_refl g)
+      | _ =>
+          (* thunks, lists, numbers ...: left alone, but the arguments before them are evaluated
+             (so the condition of ifv / py_and / py_or is a value before the match on it is exposed:
+             a stuck condition under that match would carry a copy of the continuation per branch) *)
+          first [ cbv_fun g1 tac ltac:(fun p1 => k constr:(f_equal (fun f => f a) p1))
+                | k constr:(eq_refl g) ]
       end
   | _ => k constr:(eq_refl g)
   end.
